@@ -9,6 +9,7 @@ import (
 	"sort"
 	"strings"
 	"sync"
+	"sync/atomic"
 
 	smtp "github.com/emersion/go-smtp"
 	"verif/h"
@@ -719,6 +720,9 @@ func cbOpsFor(mode cbMode) []cbOp {
 	return out
 }
 
+// cbMaxStates: see exploreClient.
+const cbMaxStates = 40000
+
 type CBCase struct {
 	Mode  string   `json:"mode"`
 	Hist  []int    `json:"history"`
@@ -850,8 +854,20 @@ func exploreClient(run *h.Run, prop string, mode cbMode, maxDepth int) (states, 
 		return len(r.Findings) > 0
 	}
 	report(nil, init)
+	var violated atomic.Bool
 	for depth = 1; len(frontier) > 0 && (maxDepth <= 0 || depth <= maxDepth); depth++ {
 		if run.Expired() {
+			break
+		}
+		// A breadth-first search reports the SHORTEST failing histories first; once a level has produced a violation the
+		// deeper levels add nothing (and a defect that keeps growing some list makes the state space infinite).
+		if violated.Load() {
+			break
+		}
+		// On the unchanged tree the search closes with a few thousand states; a state space that does not close is a
+		// finding of its own kind (something grows without bound from call to call)
+		if len(seen) > cbMaxStates {
+			run.Violate("client-bfs", CBCase{Mode: mode.Name, Prop: prop}, h.F("cb-"+strings.ToLower(prop)+"-state-space-does-not-close", "mode=%s: more than %d distinct states after %d calls - the client or the server accumulates something from call to call that no Reset, Quit or completed transaction clears (on the unchanged tree the search closes with about 2000 states per mode)", mode.Name, cbMaxStates, depth-1), nil)
 			break
 		}
 		type job struct{ s, op int }
@@ -877,6 +893,7 @@ func exploreClient(run *h.Run, prop string, mode cbMode, maxDepth int) (states, 
 			run.Trace(1)
 			run.Eval(true)
 			if report(hist, r) {
+				violated.Store(true)
 				return // a state reached through a failing call is not expanded
 			}
 			run.Outcome(mode.Name + ":" + ops[j.op].Name)
@@ -907,7 +924,7 @@ func exploreClient(run *h.Run, prop string, mode cbMode, maxDepth int) (states, 
 			run.Sample("client-history", 3, map[string]interface{}{"mode": mode.Name, "calls": names})
 		}
 	}
-	if len(frontier) > 0 {
+	if len(frontier) > 0 && !violated.Load() {
 		run.NotExhaustive(fmt.Sprintf("client search (%s) stopped at depth %d with %d unexpanded states", mode.Name, depth-1, len(frontier)))
 	}
 	return len(seen), transitions, depth - 1
